@@ -144,5 +144,8 @@ Definition v_bgp_stream (p : profile) (cd : codec) (chunks : list (list N)) : va
 Definition mk_codec (ext_len two_byte : bool) (fams : list (N * bool)) : codec :=
   {| c_ext_len := ext_len; c_two_byte := two_byte; c_fams := fams |}.
 
+(* The two build profiles are evaluated once: try_parse does not depend on the profile
+   (Proofs/WireOpen.v try_parse_profile_indep - the only profile-dependent operation, the u8
+   subtraction in the GR capability, is guarded), so the release observation is the debug one. *)
 Definition run_bgp (cd : codec) (chunks : list (list N)) : val :=
-  VL [v_bgp_stream Debug cd chunks; v_bgp_stream Release cd chunks].
+  let v := v_bgp_stream Debug cd chunks in VL [v; v].
